@@ -271,6 +271,7 @@ def run_case(case):
         if len(fails) < 3:
             fails.append({'clause': clause, 'site': where or site, 'detail': detail[:1500]})
 
+    bystanders = []
     nest = case.get('nest', 0)      # 0: scene root; 1: child of a scene root; 2: library node instantiated in the scene
     inner = ('<node id="n" name="n">\n' + '\n'.join(xml_of(t, form + i) for i, t in enumerate(case['init'])) + '\n' + CHILD +
              '</node>\n')
@@ -296,8 +297,23 @@ def run_case(case):
         trs = [construct(t, form) for t in case['init']]
         cam = collada.camera.PerspectiveCamera('cam0', 45.0, 0.01, 1000.0)
         doc.cameras.append(cam)
+        # bystanders: nodes made the short way, for which no transform is ever listed
+        bystanders.append(scene.Node('by1'))
         child = scene.Node('child', children=[scene.CameraNode(cam)], transforms=[scene.TranslateTransform(1, 0, 0)])
-        node0 = scene.Node('n', children=[child], transforms=trs)
+        made = case.get('made', 0)
+        if made == 1:
+            node0 = scene.Node('n', children=[child])            # transforms omitted, listed in place afterwards
+            node0.transforms.extend(trs)
+            node0.save()
+        elif made == 2:
+            node0 = scene.Node('n')                              # everything omitted
+            node0.children.append(child)
+            for t in trs:
+                node0.transforms.append(t)
+            node0.save()
+        else:
+            node0 = scene.Node('n', children=[child], transforms=trs)
+        bystanders.append(scene.Node('by2', children=[]))
         if nest == 0:
             roots = [node0]
         elif nest == 1:
@@ -400,6 +416,23 @@ def run_case(case):
     edits2 = case.get('edits2') or []
     final = phase(final, edits2, 'after %d edit(s), save(), %d more edit(s)%s and a second save()'
                   % (len(case['edits']), len(edits2), ', a failed save, its repair' if flt == 2 else ''), 'mats2', 'saved2', fault=(flt == 2))
+    # ---- state carried across objects: nodes for which nothing was listed are untouched by all of the above,
+    # and so is a node made now
+    if mode != 'L':
+        bystanders.append(scene.Node('by3'))
+        bystanders.append(scene.Node('by4', children=[scene.Node('by5')]))
+    for b in bystanders:
+        for stage in ('as made', 'after its own save()'):
+            nkids = 1 if b.id == 'by4' else 0
+            if len(b.transforms) != 0 or len(b.children) != nkids or not close(b.matrix, numpy.identity(4), 0.0):
+                fail('node-product', 'node %s, for which no transform was listed, has %d transform(s), %d child(ren) and matrix %r (%s)'
+                     % (b.id, len(b.transforms), len(b.children), numpy.asarray(b.matrix).tolist(), stage), 'bystander')
+                break
+            b.save()
+    if case.get('far'):
+        # a lookat far from the origin cannot survive the single precision of a written document: nothing to compare
+        obs['reloaded'] = obs['saved2']
+        return {'obs': obs, 'fails': fails}
     # ---- write, load again
     buf = io.BytesIO()
     doc.write(buf)
